@@ -379,7 +379,9 @@ pub fn validation(case: &Case, h: &Hist, ag: &Agenda) -> Vec<Violation> {
         }
         let zero_period = a.period == Some(0);
         if zero_period {
-            if *res != Res::NullPeriod {
+            // The statement requires rejection; which of the two errors is returned when
+            // the deadline is invalid as well is not specified.
+            if matches!(res, Res::Ok) {
                 v.push(Violation::keyed("c08_zero_period_accepted", if r.via_action { "action" } else { "direct" }, format!("{} has a zero period but returned {:?}", what, res)));
             }
             continue;
@@ -530,14 +532,25 @@ pub fn clock_protocol(case: &Case, h: &Hist, ag: &Agenda) -> Vec<Violation> {
                                 break;
                             }
                         }
-                    } else if matches!(c.res, Some(Res::OutOfSync(_))) {
-                        v.push(Violation::new("c18_spurious_out_of_sync", format!("`{}` returned {:?} although the lag {} is within the tolerance {:?}", c.text, c.res, lag, case.cfg.tolerance)));
                     }
                 }
             }
         }
         prev_time = *t;
     }
-    // No synchronize outside a move, except repeated ones on the current time.
+    // A command that returns OutOfSync(lag) must have received exactly that lag, above the
+    // tolerance, from its last synchronize call.
+    for c in &h.cmds {
+        if let Some(Res::OutOfSync(l)) = &c.res {
+            let last = h.syncs.iter().filter(|(s, _, _)| *s > c.begin && c.end.map(|e| *s < e).unwrap_or(true)).last();
+            let ok = match last {
+                Some((_, _, Some(lag))) => lag == l && case.cfg.tolerance.map(|tol| *lag > tol).unwrap_or(false),
+                _ => false,
+            };
+            if !ok {
+                v.push(Violation::new("c18_spurious_out_of_sync", format!("`{}` returned OutOfSync({}) but its last synchronize call answered {:?} (tolerance {:?})", c.text, l, last, case.cfg.tolerance)));
+            }
+        }
+    }
     v
 }
